@@ -29,7 +29,7 @@ def files(f4_witness=False, name_collision=False):
     from vf import genlab as G
     T = G.T
     P = "." + PKG
-    a = G.new_file("acme/lab/v1/shapes.proto", PKG, deps=G.STD_DEPS + ["google/rpc/status.proto", "google/type/date.proto"])
+    a = G.new_file("acme/lab/v1/shapes.proto", PKG, deps=G.STD_DEPS + ["google/rpc/status.proto", "google/type/date.proto", "google/rpc/error_details.proto"])
     col = a.enum_type.add(name="Color")
     for n, v in (("COLOR_UNSPECIFIED", 0), ("RED", 1), ("BLUE", 5), ("DEEP_BLUE", 2147483647)):
         col.value.add(name=n, number=v)
@@ -115,7 +115,11 @@ def files(f4_witness=False, name_collision=False):
                                   G.F("status", 3, T.TYPE_MESSAGE, type_name=".google.rpc.Status"), G.F("date", 4, T.TYPE_MESSAGE, type_name=".google.type.Date"),
                                   G.F("durs", 5, T.TYPE_MESSAGE, label=G.REPEATED, type_name=".google.protobuf.Duration"),
                                   G.F("w", 6, T.TYPE_MESSAGE, type_name=".google.protobuf.Int32Value"), G.F("any", 7, T.TYPE_MESSAGE, type_name=".google.protobuf.Any"),
-                                  G.F("nv", 8, T.TYPE_ENUM, type_name=".google.protobuf.NullValue")])
+                                  G.F("nv", 8, T.TYPE_ENUM, type_name=".google.protobuf.NullValue"),
+                                  # types nested inside messages of a dependency (pb2) package
+                                  G.F("violation", 10, T.TYPE_MESSAGE, type_name=".google.rpc.BadRequest.FieldViolation"),
+                                  G.F("quota", 11, T.TYPE_MESSAGE, label=G.REPEATED, type_name=".google.rpc.QuotaFailure.Violation"),
+                                  G.F("kind", 12, T.TYPE_ENUM, type_name=".google.protobuf.FieldDescriptorProto.Type")])
     usesdeps = a.message_type[-1]
     add_map(usesdeps, f"{PKG}.UsesDeps", "stamps", 9, "STRING", "MESSAGE", ".google.protobuf.Timestamp")
     if f4_witness:
@@ -287,16 +291,17 @@ def check_files(fs, label, failures, rng, valuations=6):
     import importlib, keyword
     from vf import genlab as G
     from google.protobuf import descriptor_pb2, descriptor_pool, message_factory, json_format
-    from google.rpc import status_pb2
+    from google.rpc import status_pb2, error_details_pb2
     from google.type import date_pb2
+    from google.protobuf import descriptor_pb2 as _dpb
     n = 0
     try:
-        api, res = G.generate(fs, "autogen-snippets=false", extra_dep_modules=(status_pb2, date_pb2))
+        api, res = G.generate(fs, "autogen-snippets=false", extra_dep_modules=(status_pb2, date_pb2, error_details_pb2, _dpb))
     except Exception as e:      # noqa
         failures.append(dict(label, what="generation failed", error=repr(e)[:300]))
         return 1
     pool = descriptor_pool.DescriptorPool()
-    for fp in G.dep_files((status_pb2, date_pb2)) + list(fs):
+    for fp in G.dep_files((status_pb2, date_pb2, error_details_pb2, _dpb)) + list(fs):
         pool.Add(fp)
     with G.materialised(res):
         try:
